@@ -25,6 +25,7 @@ def check(ctx):
     ctx.rule("R-C18.3", "parse() returns only after observing end of input")
     ctx.rule("R-C18.4", "wildcard consumption is typed: no live path consumes '#' (PPHASH) or a bracket through an untyped _advance()")
     ctx.rule("R-C18.6", "only `#line` / `# <digits>` and `#pragma` are diverted to the directive scanners: the trigger patterns match nothing but [ \\t]*line / [ \\t]*pragma NOT followed by a word character, or [ \\t]*<digit>")
+    ctx.rule("R-C18.7", "malformed input is rejected by ParseError and by nothing else: every raise / assert / partial operation reachable from parse() is routed to the error channel (decided by the C06 machinery)")
     ctx.rule("R-C18.5", "text that is no C token reaches the lexer's error callback, and the parser's callback never returns")
     ex, g = e1.get()
     px = S.module("c_parser")
@@ -202,6 +203,10 @@ def check(ctx):
     ctx.oblige("R-C18.5", "CLexer._error calls the error callback", ok)
     if not ok:
         ctx.violation("R-C18.5", "error-not-forwarded", "CLexer._error does not call self.error_func", file=lx.rel, function="CLexer._error")
+    # "rejected with ParseError": the rejection of malformed input must not surface as another exception type (an AttributeError at the
+    # end of a truncated input is not a rejection the caller can handle) - the escape analysis of C06 decides that for every path
+    from . import share
+    share.borrow(ctx, "C06", ("R-C06.1", "R-C06.2", "R-C06.3"), "R-C18.7", count=30)
     ctx.info["explanation"] = ("induction over derivations on automata extracted from the parser source by abstract interpretation: each of the production clones is checked for Dyck balance "
                                "with a bounded bracket stack; parse() must return only with look-ahead = end of input; the speculative scan is structurally consumption-neutral; PPHASH is never "
                                "consumed on a path that can succeed; non-token text reaches the error channel (tokeniser automaton + callback never returns)")
